@@ -114,10 +114,14 @@ def check_artifacts(drv, files, firmware, key_id, hash_alg, problems, key_name="
         form = (len(firmware) + key_id) % 5
         text = [hx, hx.upper(), "\n".join(hx[i:i + 64] for i in range(0, len(hx), 64)) + "\n", " ".join(hx[i:i + 2] for i in range(0, len(hx), 2)),
                 " ".join(hx[i:i + 32] for i in range(0, len(hx), 32))][form]
-        if SuitEncryptionInfo.from_obj({"raw": text}).to_cbor() != info:
+        obj = {"raw": text}
+        if SuitEncryptionInfo.from_obj(obj).to_cbor() != info:
             problems.append("create re-encodes the raw encryption info differently")
+        # one mapping referenced from two places of a description (a YAML anchor and its alias are one object): the second use is the first use
+        if SuitEncryptionInfo.from_obj(obj).to_cbor() != info:
+            problems.append("create re-encodes the raw encryption info differently when the same mapping object is used a second time (YAML alias)")
     except BaseException as e:  # noqa
-        problems.append(f"create rejects the raw encryption info (hex text form {form}): " + type(e).__name__)
+        problems.append(f"create rejects the raw encryption info (hex text form {form}; first or second use of the same mapping object): " + type(e).__name__)
     return v
 
 
